@@ -84,16 +84,30 @@ end
 /-- every function body is free of calls to functions of the table -/
 def FlatTbl (tbl : List Func) : Prop := ∀ f ∈ tbl, opsAllNodes (fun op => (findFunc tbl op).isNone) f.nodes = true
 
-theorem deepId_inlAt (tbl : List Func) (crit : OpId → Bool) (hflat : FlatTbl tbl) :
-    ∀ d, DeepId tbl crit (inlAt tbl crit d) := by
-  intro d op f cattrs cins st hf _
-  have hops : opsAllNodes (fun op => (findFunc tbl op).isNone) (instantiate f cattrs cins st.next).nodes = true := by
-    simp only [instantiate]
-    rw [cloneNodes_ops]
-    exact hflat f (findFunc_some hf).1
-  cases d with
-  | zero => simp [inlAt, ISt.addInlined]
-  | succ d => simp [inlAt, inlNodes_nocalls tbl crit _ _ _ _ hops, ISt.addInlined]
+/-- the processing of inserted nodes with any unrolling budget simulates them (nested calls): by induction
+    over the budget, each level by `inlNodes_sound` -/
+theorem deepOK_inlAt (I : Interp Val) (Φ : FEnv Val) (α : List (String × AttrData)) (tbl : List Func)
+    (crit : OpId → Bool) (ht : TblOK I Φ tbl) : ∀ k, DeepOK I Φ α tbl (inlAt tbl crit k)
+  | 0 => by
+    intro Q lo ns st ρ _
+    simp only [inlAt]
+    exact ⟨fun v _ => by rw [Subst.app_nil], Nat.le_refl _, fun p hp => by simp at hp⟩
+  | k + 1 => by
+    intro Q lo ns st ρ hwf
+    obtain ⟨k1, _, k3, k4, k5⟩ := inlNodes_sound I Φ α tbl crit (inlAt tbl crit k) st.next ht
+      (deepOK_inlAt I Φ α tbl crit ht k) ns [] [] st ρ ρ (fun v _ => by rw [Subst.app_nil])
+      (fun p hp => by simp at hp) hwf.ssa hwf.closed hwf.nofwd (fun v hv => (hwf.refs v hv).1)
+      (fun v hv => (hwf.defs v hv).2) (Nat.le_refl _) (fun p hp => by simp at hp) hwf.calls
+    simp only [inlAt]
+    refine ⟨k1, k3, fun p hp => ?_⟩
+    rcases k5 p hp with h | ⟨h1, h2⟩
+    · simp at h
+    · obtain ⟨a, b⟩ := hwf.defs p.1 h1
+      refine ⟨a, b, k4 p hp, ?_⟩
+      rcases h2 with h2 | ⟨v, hv, h2⟩
+      · exact Or.inr (Nat.le_trans a (Nat.le_trans (Nat.le_of_lt b) h2))
+      · rw [Subst.app_nil] at h2
+        rw [h2]; exact (hwf.refs v hv).2
 
 /-! ## the loop over the functions that are left -/
 
@@ -135,6 +149,46 @@ theorem inlFuncs_flat (crit : OpId → Bool) (budget : Nat) (tbl : List Func) (h
         have : ({ f with nodes := f.nodes, outputs := f.outputs } : Func) = f := by cases f; rfl
         rw [this, replaceFunc_self tbl hnd hmem]
         exact inlFuncs_flat crit budget tbl hnd hflat rest st
+
+theorem replaceFunc_ids (tbl : List Func) (f' : Func) : (replaceFunc tbl f').map (·.id) = tbl.map (·.id) := by
+  unfold replaceFunc
+  rw [List.map_map]
+  apply List.map_congr_left
+  intro f _
+  simp only [Function.comp]
+  by_cases h : f.id = f'.id
+  · simp [h]
+  · have : (f.id == f'.id) = false := by simpa using h
+    simp [this]
+
+/-- the loop over the functions keeps the function identifiers -/
+theorem inlFuncs_ids (crit : OpId → Bool) (budget : Nat) : ∀ (ids : List OpId) (st : ISt) (tbl : List Func),
+    (inlFuncs crit budget st tbl ids).2.map (·.id) = tbl.map (·.id)
+  | [], _, _ => by simp [inlFuncs]
+  | id :: rest, st, tbl => by
+    rw [inlFuncs]
+    split
+    · exact inlFuncs_ids crit budget rest st tbl
+    · split
+      · exact inlFuncs_ids crit budget rest st tbl
+      · rw [inlFuncs_ids crit budget rest _ _, replaceFunc_ids]
+
+theorem findFunc_none_of_ids {fs gs : List Func} (h : gs.map (·.id) = fs.map (·.id)) {op : OpId}
+    (hf : findFunc fs op = none) : findFunc gs op = none := by
+  unfold findFunc at hf ⊢
+  rw [List.find?_eq_none] at hf ⊢
+  intro g hg
+  have : g.id ∈ fs.map (·.id) := h ▸ List.mem_map.2 ⟨g, hg, rfl⟩
+  obtain ⟨f, hfm, hfid⟩ := List.mem_map.1 this
+  have := hf f hfm
+  rw [← hfid]; exact this
+
+theorem findFunc_filter_none (fs : List Func) (keep : Func → Bool) {op : OpId} (hf : findFunc fs op = none) :
+    findFunc (fs.filter keep) op = none := by
+  unfold findFunc at hf ⊢
+  rw [List.find?_eq_none] at hf ⊢
+  intro g hg
+  exact hf g (List.mem_filter.1 hg).1
 
 /-! ## deleting functions that are not called -/
 
